@@ -33,12 +33,12 @@ Section G.
   Variable g : list N -> nat.
   Definition array_cmp_g (V : list N) (sc : N -> N -> N -> list N -> res (list N)) (depth len base : N) (buf : list N)
     : res (list N) :=
-    arr_cmp_loop V sc (g V) depth 0 len base 0 (4 * len) buf.
+    arr_cmp_loop V sc (g V) depth 0 len base CVA_JOFF (CVA_VOFF len) buf.
   Definition object_cmp_g (V : list N) (sc : N -> N -> N -> list N -> res (list N)) (depth len base : N) (buf : list N)
     : res (list N) :=
-    match rd_words (g V) V 0 len base with
+    match rd_words (g V) V 0 len (base + CVO_JOFF) with
     | None => Ok buf
-    | Some kws => obj_cmp_loop V sc kws depth base (4 * len) (8 * len) (8 * len + sum_je_len kws) buf
+    | Some kws => obj_cmp_loop V sc kws depth base (CVO_JOFF + CVO_JSTEP1 * len) (CVO_KOFF len) (CVO_VOFF len + sum_je_len kws) buf
     end.
   Fixpoint scalar_cmp_g (fuel : nat) (V : list N) (depth w off : N) (buf : list N) : res (list N) :=
     match fuel with O => Ok buf | S f =>
@@ -50,11 +50,11 @@ Section G.
       | Some h =>
           let len := hdr_len h in
           if hdr_type h =? ARRAY_CONTAINER_TAG then
-            do _ <- from_ok V (off + 4);
-            array_cmp_g V (scalar_cmp_g f V) (sat1 depth) len (off + 4) (buf0 ++ [ARRAY_LEVEL])
+            do _ <- from_ok V (off + CVC_ARR_SKIP);
+            array_cmp_g V (scalar_cmp_g f V) (sat1 depth) len (off + CVC_ARR_SKIP) (buf0 ++ [ARRAY_LEVEL])
           else if hdr_type h =? OBJECT_CONTAINER_TAG then
-            do _ <- from_ok V (off + 4);
-            object_cmp_g V (scalar_cmp_g f V) (sat1 depth) len (off + 4) (buf0 ++ [OBJECT_LEVEL])
+            do _ <- from_ok V (off + CVC_OBJ_SKIP);
+            object_cmp_g V (scalar_cmp_g f V) (sat1 depth) len (off + CVC_OBJ_SKIP) (buf0 ++ [OBJECT_LEVEL])
           else Ok buf0
       end
     else
@@ -128,7 +128,7 @@ Section LoopsIndep.
     unfold from_ok. destruct (base + voff <=? lenN V) eqn:Ef; cbn [bind]; [|reflexivity]. apply N.leb_le in Ef.
     rewrite (Hsc depth w (base + voff) buf ltac:(lia) Ef).
     destruct (sc' depth w (base + voff) buf) as [buf'|e|]; cbn [bind]; try reflexivity.
-    apply IH; lia.
+    apply IH; unfold CVA_JSTEP; lia.
   Qed.
 
   Lemma obj_cmp_loop_ext : forall kws depth joff koff voff buf,
@@ -152,7 +152,7 @@ Lemma scalar_cmp_g_indep g g' V : (S (length V) <= g V)%nat -> (S (length V) <= 
   scalar_cmp_g g f V depth w off buf = scalar_cmp_g g' f' V depth w off buf.
 Proof.
   intros Hg Hg'. induction f as [|f IH]; intros f' depth w off buf H0 H1 H2; [lia|]. destruct f' as [|f']; [lia|].
-  cbn [scalar_cmp_g]. cbv zeta.
+  cbn [scalar_cmp_g]. cbv zeta. unfold CVC_ARR_SKIP, CVC_OBJ_SKIP.
   destruct (je_type w =? CONTAINER_TAG); [|reflexivity].
   destruct (read_u32 V off) as [hd|]; [|reflexivity].
   assert (Hsc : forall depth w off' buf, off + 4 <= off' -> off' <= lenN V ->
@@ -160,12 +160,13 @@ Proof.
   { intros d w' off' b A B. apply IH; lia. }
   destruct (hdr_type hd =? ARRAY_CONTAINER_TAG).
   { unfold from_ok. destruct (off + 4 <=? lenN V) eqn:Ef; cbn [bind]; [|reflexivity]. apply N.leb_le in Ef.
-    unfold array_cmp_g. apply arr_cmp_loop_indep; [exact Hsc|lia|unfold lenN in *; lia|unfold lenN in *; lia]. }
+    unfold array_cmp_g. apply arr_cmp_loop_indep; unfold CVA_JOFF; [exact Hsc|lia|unfold lenN in *; lia|unfold lenN in *; lia]. }
   destruct (hdr_type hd =? OBJECT_CONTAINER_TAG); [|reflexivity].
   unfold from_ok. destruct (off + 4 <=? lenN V) eqn:Ef; cbn [bind]; [|reflexivity]. apply N.leb_le in Ef.
   unfold object_cmp_g.
-  rewrite (rd_words_indep (g V) (g' V) V 0 (hdr_len hd) (off + 4)); [|lia|unfold lenN in *; lia|unfold lenN in *; lia].
-  destruct (rd_words (g' V) V 0 (hdr_len hd) (off + 4)) as [kws|]; [|reflexivity].
+  rewrite (rd_words_indep (g V) (g' V) V 0 (hdr_len hd) (off + 4 + CVO_JOFF));
+    [|unfold CVO_JOFF; lia|unfold CVO_JOFF, lenN in *; lia|unfold CVO_JOFF, lenN in *; lia].
+  destruct (rd_words (g' V) V 0 (hdr_len hd) (off + 4 + CVO_JOFF)) as [kws|]; [|reflexivity].
   apply obj_cmp_loop_ext. exact Hsc.
 Qed.
 
@@ -185,12 +186,13 @@ Proof.
     apply Hsc; [lia|exact Ef]. }
   destruct (hdr_type hd =? ARRAY_CONTAINER_TAG).
   { unfold from_ok. destruct (4 <=? lenN V) eqn:Ef; cbn [bind]; [|reflexivity]. apply N.leb_le in Ef.
-    unfold array_cmp_g. apply arr_cmp_loop_indep; [exact Hsc|lia|unfold lenN in *; lia|unfold lenN in *; lia]. }
+    unfold array_cmp_g. apply arr_cmp_loop_indep; unfold CVA_JOFF; [exact Hsc|lia|unfold lenN in *; lia|unfold lenN in *; lia]. }
   destruct (hdr_type hd =? OBJECT_CONTAINER_TAG); [|reflexivity].
   unfold from_ok. destruct (4 <=? lenN V) eqn:Ef; cbn [bind]; [|reflexivity]. apply N.leb_le in Ef.
   unfold object_cmp_g.
-  rewrite (rd_words_indep (g V) (g' V) V 0 (hdr_len hd) 4); [|lia|unfold lenN in *; lia|unfold lenN in *; lia].
-  destruct (rd_words (g' V) V 0 (hdr_len hd) 4) as [kws|]; [|reflexivity].
+  rewrite (rd_words_indep (g V) (g' V) V 0 (hdr_len hd) (4 + CVO_JOFF));
+    [|unfold CVO_JOFF; lia|unfold CVO_JOFF, lenN in *; lia|unfold CVO_JOFF, lenN in *; lia].
+  destruct (rd_words (g' V) V 0 (hdr_len hd) (4 + CVO_JOFF)) as [kws|]; [|reflexivity].
   apply obj_cmp_loop_ext. exact Hsc.
 Qed.
 
